@@ -371,15 +371,19 @@ func fnSort(ctx *cmdContext, args map[string]any) (output respValue, err error) 
 }
 
 func fnFlushAll(ctx *cmdContext, args map[string]any) (output respValue, err error) {
-	ctx.cs.dss.flushAll()
-	ctx.cs.selectDb(ctx.cs.selectedDb, true)
+	for _, ds := range ctx.cs.dss.allDbs() {
+		if ds == ctx.dsc.ds {
+			ctx.dsc.flush()
+		} else {
+			ds.newDataStoreCommand().flush()
+		}
+	}
 	output.data = rstrOK
 	return
 }
 
 func fnFlushDb(ctx *cmdContext, args map[string]any) (output respValue, err error) {
-	ctx.cs.dss.flushDb(ctx.cs.selectedDb)
-	ctx.cs.selectDb(ctx.cs.selectedDb, true)
+	ctx.dsc.flush()
 	output.data = rstrOK
 	return
 }
